@@ -11,12 +11,12 @@ import (
 )
 
 type c02Ctx struct {
-	em      *vEmitter
-	r       *vRng
-	ps      []vParam
-	def     uint
-	n       int
-	budget  int
+	em     *vEmitter
+	r      *vRng
+	ps     []vParam
+	def    uint
+	n      int
+	budget int
 }
 
 // one file content -> one history on a fresh directory
@@ -252,15 +252,36 @@ func runC02(em *vEmitter, r *vRng) {
 			x.file([]byte(vRecordLine(p, 1700000000, nil, p.kdf(nil, pw))+"\n"), pw, "edge/empty-salt-right-digest", true)
 			x.file([]byte(vRecordLine(p, 1700000000, salt[:len(salt)/2], p.kdf(salt[:len(salt)/2], pw))+"\n"), pw, "foreign/short-salt", true)
 			// (8b) digest computed for the right password and salt under a NEIGHBOUR of the configured
-		// parameter set (one parameter changed), filed under the configured id: must not authenticate
-		for _, q := range c02Near(p) {
-			d := q.kdf(salt, pw)
-			if d == nil || bytes.Equal(d, dig) {
-				continue
+			// parameter set (one parameter changed), filed under the configured id: must not authenticate
+			for _, q := range c02Near(p) {
+				d := q.kdf(salt, pw)
+				if d == nil || bytes.Equal(d, dig) {
+					continue
+				}
+				x.file([]byte(vRecordLine(p, 1700000000, salt, d)+"\n"), pw, "foreign/near-parameters", true)
 			}
-			x.file([]byte(vRecordLine(p, 1700000000, salt, d)+"\n"), pw, "foreign/near-parameters", true)
-		}
-		// (9) huge lines
+			// (8c) a valid record followed, on the same line, by padding that the base64 decoder skips
+			// (CR) and then by junk: the first line is not a record whatever its length, in particular
+			// when the junk starts beyond a plausible read-buffer size
+			for _, padlen := range []int{1, 100, 4096 - len(line) - 1, 4096 - len(line), 4096 - len(line) + 1, 5000, 8192 - len(line), 70000} {
+				if padlen < 0 {
+					continue
+				}
+				for _, tail := range []string{"AAAA", ":AAAA", "!!!!", "\x00"} {
+					if padlen > 6000 && tail != "AAAA" {
+						continue
+					}
+					c := append([]byte(line), bytes.Repeat([]byte{'\r'}, padlen)...)
+					c = append(c, tail...)
+					x.file(append(c, '\n'), pw, "mut/long-line-cr-padding", padlen < 9000)
+					if padlen < 9000 {
+						x.file(c, pw, "mut/long-line-cr-padding", true) // no EOL
+					}
+				}
+			}
+			// the same padding with nothing after it: still the record (CR is skipped)
+			x.file(append(append([]byte(line), bytes.Repeat([]byte{'\r'}, 5000)...), '\n'), pw, "valid/cr-padded", true)
+			// (9) huge lines
 			huge := append([]byte(line), bytes.Repeat([]byte{'A'}, 65536)...)
 			x.file(append(huge, '\n'), pw, "mut/huge-line-64k", pi == 0)
 			x.file(append(bytes.Repeat([]byte{'x'}, 1<<20), valid...), pw, "mut/huge-prefix-1m", false)
